@@ -19,6 +19,7 @@ CONSTANTS MinRows, MaxRows, MaxOutside,
           Callers,           \* subset of {"pred", "bootstrap", "interval"}
           SelMode,           \* "all" | "few" | "some"
           WithNA,            \* outside rows may carry a missing level
+          NAInExpected,      \* expected (fitting / prediction) rows may carry a missing level too
           ExtraSet,          \* set of extra-column lists (numeric frame columns named <fe>_<suffix>)
           Export, SampleMod
 
@@ -74,11 +75,14 @@ Init ==
      \E fes \in FESeqs, feats \in FeatSeqs, sep \in SepSeqs, ctr \in CenterSet, caller \in Callers, extra \in ExtraSet :
      \E icpt \in (IF fes = <<>> /\ NoInterceptToo THEN BOOLEAN ELSE {TRUE}) :
      \E sel \in SelRecs(fes) :
-     \E lvE \in [1..(n - nO) -> LevRecs(fes, FALSE)] :
+     \E lvE \in [1..(n - nO) -> LevRecs(fes, NAInExpected)] :
      \E lvO \in [1..nO -> LevRecs(fes, WithNA)] :
      \E st \in [1..n -> StateSet] :
      \E t \in (IF caller = "interval" THEN 1..nF ELSE {0}) :
        /\ caller = "interval" => nO = 0
+       \* precondition: every effect shows at least one level on the fitting rows (all missing -> pandas produces no dummy
+       \* column for the effect at all and the Featurizer raises; not a case any caller can be in)
+       /\ \A fe \in Rng(fes) : \E r \in 1..nF : lvE[r][fe] # NA
        /\ sc = [ rows |-> [r \in 1..n |->
                              [ rep |-> r <= nF,
                                exp |-> r <= n - nO,
